@@ -21,6 +21,16 @@ CHECKS = {
   "note": COMMON_NOTE + "Modelled not verified: Go channels/select/sync.Map and FIFO wake-up of parked senders; the theorems are about "
           "one-call-at-a-time histories with parked calls; real interleavings inside a call are only sampled by the stress runs.",
  },
+ "C10": {
+  "text": "PARTIAL by nature: what a third-party parser does on a given byte string is outside any model of Zeno. Proved (decision "
+          "logic over regenerated facts): whatever the parsers called from the two extractor dispatchers do - return, error, panic - "
+          "post-processing never takes the crawler down and costs at most that URL's links; a body that cannot be read fails the item, a "
+          "URL that cannot be normalised is dropped. Tested, not proved: structure-aware and byte-level mutations of valid HTML / JSON / "
+          "XML / sitemap / S3 / M3U8 / PDF / text bodies, type confusion, Location / Link / Content-Type values and URL strings go "
+          "through the real ProcessBody, dispatch, redirect handling and normaliser under a watchdog; no panic may escape, nothing may spin.",
+  "note": COMMON_NOTE + "Level is 'proof' for the containment logic only; absence of panics outside the recovered region, of hangs, of stack "
+          "exhaustion and of memory blow-up is evidence from fuzzing (labelled as testing in the evidence file).",
+ },
  "C11": {
   "text": "Theorems over the mutual Tree/Forest model for all trees: every operation the stages perform (status change of a childless "
           "node, AddChild, RemoveChild, DedupeItems, CompleteAndCheck) preserves everything CheckConsistency demands; DedupeItems "
